@@ -203,6 +203,37 @@ class Ob:
         self.key = None
 
 
+def ledger_match(ledger, o):
+    """Audited entry covering an obligation: the exact key, or - for sites identified by conditions (explicit panics,
+    generic arithmetic) - a set of entries `owner|kind|desc(conds)` such that every path reaching the site satisfies the
+    conditions of one of them (a site merged from several audited situations is still audited; a site reachable under
+    conditions no entry covers is not)."""
+    e = ledger.get(o.key)
+    if e is not None:
+        return e
+    pcs = getattr(o, "path_conds", None)
+    if not pcs:
+        return None
+    m = re.match(r"^(.*?\|%s\|%s)(?:\((.*)\))?\|#\d+$" % (re.escape(o.kind), re.escape(o.desc)), o.key)
+    if not m:
+        return None
+    prefix = m.group(1)
+    entries = []
+    for k, v in ledger.items():
+        mm = re.match(r"^%s(?:\((.*)\))?\|#\d+$" % re.escape(prefix), k)
+        if mm:
+            entries.append((frozenset(x for x in (mm.group(1) or "").split(";") if x), v))
+    if not entries:
+        return None
+    used = []
+    for P in pcs:
+        hit = [v for E, v in entries if E and E <= P]
+        if not hit:
+            return None
+        used.append(hit[0])
+    return {"reason": " / ".join(sorted({u["reason"] for u in used})), "keys": True}
+
+
 def owner_fn(F, path, stop=None):
     """Function an obligation is attributed to: closures belong to their parent, and a private function with a single
     calling function belongs to that caller (a block extracted into a helper keeps its identity)."""
@@ -255,9 +286,11 @@ def collect(F, fn_path, tag="", inline_pred=None, facts_hook=None, loop_k=1, ren
             o = sites[k] = Ob(kind, site[0], desc, site, status, why, p)
             o.detail = detail
             o.conds = cs if conds is not None else None
+            o.path_conds = {frozenset(cs)} if conds is not None else set()
         else:
             if conds is not None and o.conds is not None:
                 o.conds &= cs
+                o.path_conds.add(frozenset(cs))
             rank = {"discharged": 0, "open": 1, "fails": 2}
             if rank[status] > rank[o.status]:
                 o.status, o.why, o.path = status, why, p
